@@ -1035,6 +1035,7 @@ void sim_tso_region(const void* p, size_t n, int on) { if (!g_active) return; if
 void sim_allotment(int soft, int mand, int total, int n, const int* l, const int* mn, const int* mx, const int* al) { if (g_active && sim::g_allot_fn && *sim::g_allot_fn) (*sim::g_allot_fn)(soft, mand, total, n, l, mn, mx, al); }
 void sim_probe(const char* name) { if (g_active) sim::probe(name); }
 unsigned sim_random_salt(void) { return g_active ? (unsigned)(sim::g_time_salt * 2654435761u) : 0u; }
+int sim_unusual(const char* site, int per_mille) { return (g_active && g_cur) ? (int)sim::fault(site, per_mille / 1000.0) : 0; }
 int sim_spin_knob(int dflt) { return (g_active && g_cfg.spin_knob >= 0) ? g_cfg.spin_knob : dflt; }
 
 void* sim_mmap(void* addr, size_t len, int prot, int flags, int fd, off_t off) {
